@@ -58,3 +58,22 @@ def tiles(slices):
 
 def pae_terms(t):
     return subterms(t, lambda x: x and x[0] == "PAE")
+
+def pin_of(c, value, arms=None):
+    """A guard `c == value` that compares an expression with an integer constant, in any spelling:
+         binop Eq/Ne(expr, k) with the branch taken, or a switch/match directly on expr (arm k, or the default arm of a
+         one-arm match).  -> (expr, k, holds) meaning `expr == k` is known to hold / not to hold on this edge; None otherwise."""
+    if isinstance(c, tuple) and len(c) == 4 and c[0] == "binop" and c[1] in ("Eq", "Ne") and value in (0, 1):
+        a, b = c[2], c[3]
+        if isinstance(a, tuple) and a and a[0] == "int" and not (isinstance(b, tuple) and b and b[0] == "int"):
+            a, b = b, a
+        if isinstance(b, tuple) and b and b[0] == "int":
+            return a, b[1], (c[1] == "Eq") == (value == 1)
+        return None
+    if isinstance(c, tuple) and c and c[0] in ("binop", "discr", "unop"):
+        return None
+    if isinstance(value, int) and not isinstance(value, bool):
+        return c, value, True
+    if value == "otherwise" and arms and len(arms) == 1 and isinstance(arms[0], int):
+        return c, arms[0], False
+    return None
